@@ -408,7 +408,7 @@ also('C05', 'the shared SDP input checker never replaces the state it checks (CH
 also('C06', 'the shared SDP input checker never replaces the state it checks (CHK1: directions outside the state space are not projected).')
 also('C07', 'the single-qubit kernel does not store operator products into a buffer typed after the state (DT13).')
 also('C10', 'no projection (.real / .imag) of a vector after its normalisation (NRM1).')
-also('C11', 'MeasureGate.forward passes only the state, its index and its generator to the measurement (D4B: no stale probabilities).')
+also('C11', 'MeasureGate.forward passes only the state, its index and its generator to the measurement (D4B: no stale probabilities); the torch wrapper records for each circuit position that position\'s own gate object (GI1).')
 also('C16', 'a conversion that flattens the batch after a shape snapshot restores the layout from that snapshot (ST4).')
 also('C19', 'the tokenizer of the indexed Pauli form reads multi-digit qubit indices (Q8); split groups are unpacked in the order of their sizes (UN1).')
 
